@@ -257,6 +257,7 @@ pub fn cmd_explore(opt: &HashMap<String, String>) -> i32 {
             depth_cap: depth_caps.get(&0).copied(),
             heavy_depth_limit: None,
             owning_by_shape: !thorough,
+            distinct_roots: false,
         };
         let mut result = ex.run(&eo);
         novel = std::mem::take(&mut result.novel);
@@ -265,6 +266,22 @@ pub fn cmd_explore(opt: &HashMap<String, String>) -> i32 {
     // continuation after a fault: every state reached by a fault that is not a
     // state of the closure is explored for d_after further operations
     let verdict_reached = |phases: &Vec<Phase>| phases.iter().any(|ph| !ph.result.violations.is_empty() || ph.result.machinery.is_some());
+    let is_hidden = |k: &Vec<u8>| k.windows(crate::faults::HIDDEN_MAGIC.len()).any(|w| w == crate::faults::HIDDEN_MAGIC);
+    let (mut hidden, plain): (Vec<_>, Vec<_>) = novel.into_iter().partition(|(_, _, k)| is_hidden(k));
+    // hidden-state roots: shortest histories first, a bounded number (they exist only when a fault leaves scratch state behind)
+    hidden.sort_by_key(|(r, h, _)| (h.len(), *r));
+    {
+        // every root configuration (hasher kind, capacity, limit) gets its share
+        let mut per_root: std::collections::BTreeMap<usize, usize> = Default::default();
+        hidden.retain(|(r, _, _)| {
+            let n = per_root.entry(*r).or_insert(0);
+            *n += 1;
+            *n <= 100
+        });
+    }
+    hidden.truncate(6000);
+    let d_hidden = if thorough { 4 } else { 3 };
+    for (novel, depth, phase_no, what) in [(plain, d_after, 1u64, "continuation after fault"), (hidden, d_hidden, 4u64, "continuation from post-fault states whose cache object changed although everything the hook reports is as before the faulted operation")] {
     if (want(16) || want(17)) && !novel.is_empty() && !verdict_reached(&phases) {
         let fp = sel & (p(16) | p(17));
         let ctx2 = Ctx { u: &u, sel: fp, growth_bound: None, fault_props: fp, extra_ids: vec![], known_rules: known_rules.clone() };
@@ -284,21 +301,23 @@ pub fn cmd_explore(opt: &HashMap<String, String>) -> i32 {
         };
         let eo = ExploreOpts {
             threads,
-            max_depth: d_after,
+            max_depth: depth,
             max_states: 30_000_000,
             wall_cap_s: wall_cap,
             state_opts: None,
             transitions: true,
             max_violations: 200,
             extra,
-            phase: 1,
+            phase: phase_no,
             skips: skips.clone(),
-            depth_cap: depth_caps.get(&1).copied(),
+            depth_cap: depth_caps.get(&phase_no).copied(),
             heavy_depth_limit: None,
             owning_by_shape: !thorough,
+            distinct_roots: phase_no == 4,
         };
         let result = ex.run(&eo);
-        phases.push(Phase { name: format!("continuation after fault (depth {})", d_after), result, roots: roots2, alpha_len, nkeys, fault_props: fp, u: u.clone() });
+        phases.push(Phase { name: format!("{what} (depth {depth})"), result, roots: roots2, alpha_len, nkeys, fault_props: fp, u: u.clone() });
+    }
     }
 
     // quick tier: a fourth key under two well-spread hashers (the full U4 closure is the thorough tier)
@@ -325,6 +344,7 @@ pub fn cmd_explore(opt: &HashMap<String, String>) -> i32 {
             depth_cap: depth_caps.get(&2).copied(),
             heavy_depth_limit: None,
             owning_by_shape: !thorough,
+            distinct_roots: false,
         };
         let result = ex.run(&eo);
         phases.push(Phase { name: "closure U4 (Spread, four value sizes, one size per key)".into(), result, roots: roots4, alpha_len, nkeys: 4, fault_props: 0, u: u4.clone() });
@@ -359,6 +379,7 @@ pub fn cmd_explore(opt: &HashMap<String, String>) -> i32 {
             depth_cap: depth_caps.get(&3).copied(),
             heavy_depth_limit: None,
             owning_by_shape: !thorough,
+            distinct_roots: false,
         };
         let result = ex.run(&eo);
         phases.push(Phase { name: "closure: two keys, value sizes {0, 1, usize::MAX/2}, limits up to usize::MAX".into(), result, roots: rootsg, alpha_len, nkeys: 2, fault_props: 0, u: ug.clone() });
@@ -462,6 +483,7 @@ pub fn cmd_explore(opt: &HashMap<String, String>) -> i32 {
             depth_cap: depth_caps.get(&(10 + seed_idx as u64)).copied(),
             heavy_depth_limit: Some(if thorough { 2 } else { 1 }),
             owning_by_shape: false,
+            distinct_roots: false,
             };
             let alpha_len = sd.alpha.len();
             let mut ex = Explorer::new(&ctx_s, vec![sd.root.clone()], sd.alpha.clone());
@@ -500,6 +522,7 @@ pub fn cmd_explore(opt: &HashMap<String, String>) -> i32 {
                 depth_cap: depth_caps.get(&phase_no).copied(),
                 heavy_depth_limit: Some(0),
                 owning_by_shape: false,
+                distinct_roots: false,
             };
             let alpha_len = lalpha.len();
             let mut ex = Explorer::new(&ctx_l, lroots.clone(), lalpha);
